@@ -14,7 +14,11 @@ use std::path::{Path, PathBuf};
 use std::sync::Mutex;
 use std::time::Instant;
 
-pub const VERIF_DIR: &str = "/verif";
+/// Root of the verification tree (evidence/, replays/, known_findings.json, target/libdetrand.so).
+/// Overridable with VERIF_DIR so a scratch copy can run without touching /verif.
+pub fn verif_dir() -> String {
+    std::env::var("VERIF_DIR").unwrap_or_else(|_| "/verif".to_string())
+}
 
 #[derive(Clone, Debug)]
 pub struct Args {
@@ -214,7 +218,7 @@ pub struct Findings {
 
 pub fn load_findings(prop: &str) -> Findings {
     let mut f = Findings::default();
-    let path = format!("{VERIF_DIR}/known_findings.json");
+    let path = format!("{}/known_findings.json", verif_dir());
     let Ok(text) = std::fs::read_to_string(&path) else { return f };
     let Ok(v) = serde_json::from_str::<Value>(&text) else {
         eprintln!("harness error: {path} is not valid JSON");
@@ -441,7 +445,7 @@ fn worker_main(sc: &dyn Scenario, a: &Args) -> i32 {
             };
             let o2 = run_case(sc, &min_case);
             let v2 = o2.violations.iter().find(|x| x.signature == v.signature).cloned().unwrap_or_else(|| v.clone());
-            let path = write_replay(sc, &min_case, &v2, &format!("{VERIF_DIR}/replays"));
+            let path = write_replay(sc, &min_case, &v2, &format!("{}/replays", verif_dir()));
             r.unknown.push(json!({
                 "signature": v.signature,
                 "detail": v2.detail,
@@ -544,7 +548,7 @@ fn reproduces_in_fresh_process(prop: &str, file: &str, sig: &str) -> Option<bool
 }
 
 fn shim_path() -> String {
-    format!("{VERIF_DIR}/target/libdetrand.so")
+    format!("{}/target/libdetrand.so", verif_dir())
 }
 
 fn worker_command(exe: &Path, hash_seed: u64) -> std::process::Command {
@@ -761,7 +765,7 @@ pub fn main_for(sc: &dyn Scenario, a: &Args) -> i32 {
     let mut witness_status = Vec::new();
     for (sig, (_what, wit)) in &findings.known {
         if let Some(w) = wit {
-            let p = if w.starts_with('/') { w.clone() } else { format!("{VERIF_DIR}/{w}") };
+            let p = if w.starts_with('/') { w.clone() } else { format!("{}/{w}", verif_dir()) };
             let rep = reproduces_in_fresh_process(sc.id(), &p, sig);
             witness_status.push(json!({"signature": sig, "witness": w, "reproduces": rep}));
         }
@@ -843,7 +847,7 @@ pub fn main_for(sc: &dyn Scenario, a: &Args) -> i32 {
             "wall_s": wall,
             "violations": violations_reported,
         });
-        let dir = format!("{VERIF_DIR}/evidence");
+        let dir = format!("{}/evidence", verif_dir());
         let _ = std::fs::create_dir_all(&dir);
         let path = format!("{dir}/{}.json", sc.id());
         match std::fs::File::create(&path).and_then(|mut f| f.write_all(serde_json::to_string_pretty(&ev).unwrap().as_bytes())) {
